@@ -176,3 +176,73 @@ for _spec in OPS:
     register(Job(f"docs:_validate[{_spec.name}]", ["C01", "C08"], D + "_validate", {"target": _spec.name}, _validate_job("op", _spec.name)))
 for _m in ("GELU", "SiLU", "Softmax", "Dropout", "Linear", "LinearReadout", "Conv1d", "LayerNorm", "Embedding", "CrossEntropyLoss"):
     register(Job(f"docs:_validate[{_m}.__init__]", ["C08"], D + "_validate", {"target": _m}, _validate_job("module", _m)))
+
+
+# ---------------------------------------------------------------- the decorators themselves
+
+
+def _decorator_job(which: str) -> Callable[[], Record]:
+    """docstring_from(...)(f) returns _validate(f, unsupported_args); inherit_docstring(...)(cls)
+    replaces cls.__init__ by _validate(cls.__init__, unsupported_args); format_docstring(...)(f)
+    returns f itself.  (This is the contract the executor applies instead of running decorators.)"""
+
+    def run() -> Record:
+        qual = D + which
+        tag = f"C01:docs.{which}"
+
+        def build(ctx: Ctx) -> Any:
+            rec: List[Any] = []
+
+            def s_validate(interp: Any, b: Dict[str, Any]) -> Any:
+                rec.append(("_validate", b["f"], b["unsupported_args"]))
+                return ("validated", b["f"], tuple(b["unsupported_args"]))
+
+            def s_getdoc(interp: Any, b: Dict[str, Any]) -> Any:
+                rec.append(("_get_docstring_from_target", b["source"], b["target"]))
+                return b["source"]
+
+            it = mk_interp(ctx, verifying=[qual], extra_contracts={D + "_validate": s_validate, D + "_get_docstring_from_target": s_getdoc}, hook=_hook)
+            from pyvc.interp import ClassVal
+
+            f = Stub(lookup_fn(it, UF + "silu"), it)
+            f.doc = None
+            parent = ClassVal("Parent", [], it.get_module("unit_scaling.docs"), "Parent")
+            cls = ClassVal("Child", [parent], it.get_module("unit_scaling.docs"), "Child")
+            cls.attrs["__init__"] = f
+            cls.attrs["__doc__"] = "a {0} doc"
+            U_ = ["inplace"]
+
+            def thunk() -> Any:
+                dec = lookup_fn(it, qual)
+                if which == "docstring_from":
+                    out = it.call(it.call(dec, [opaque(ctx, "target")], {"unsupported_args": U_}), [f], {})
+                    return out, f, U_, rec, None
+                if which == "inherit_docstring":
+                    out = it.call(it.call(dec, [], {"unsupported_args": U_}), [cls], {})
+                    return out, f, U_, rec, cls
+                out = it.call(it.call(dec, ["x"], {}), [cls], {})
+                return out, f, U_, rec, cls
+
+            return it, thunk
+
+        def post(p: PathResult, i: int) -> Any:
+            ctx = p.ctx
+            if p.outcome != "return":
+                ctx.oblige(f"{tag}:no_exception", False, exc=str(p.exc))
+                return None
+            out, f, U_, rec, cls = p.value
+            if which == "docstring_from":
+                ctx.oblige(f"{tag}:returns__validate(f, unsupported_args)", out == ("validated", f, tuple(U_)), got=repr(out)[:120])
+            elif which == "inherit_docstring":
+                ctx.oblige(f"{tag}:returns_the_class_with___init___wrapped_by__validate", out is cls and cls.attrs.get("__init__") == ("validated", f, tuple(U_)), got=repr(cls.attrs.get("__init__"))[:120])
+            else:
+                ctx.oblige(f"{tag}:returns_its_argument_unchanged(only __doc__ is written)", out is cls and cls.attrs.get("__init__") is f and set(k for k in cls.attrs) == {"__init__", "__doc__"})
+            return None
+
+        return run_config(qual, {}, build, post)
+
+    return run
+
+
+for _w in ("docstring_from", "inherit_docstring", "format_docstring"):
+    register(Job(f"docs:{_w}", ["C01", "C08"], D + _w, {}, _decorator_job(_w)))
